@@ -17,6 +17,8 @@ def build(tier, seed):
     thorough = tier == "thorough"
     cases = [{"id": f"cfg-{i}", "i": i} for i in range(30000 if thorough else 300)]
     cases += [{"id": f"collide-{i}", "i": i, "collide": True} for i in range(1500 if thorough else 24)]
+    # the selection and the mapping are those of THIS command: an earlier run() of the same process with other -p / -m arguments leaves nothing behind
+    cases += [{"id": f"hist-{i}", "i": i, "hist": True} for i in range(6000 if thorough else 120)]
 
     def evalfn(case):
         rng = random.Random(engine.subseed("C10", seed, case["id"]))
@@ -24,7 +26,7 @@ def build(tier, seed):
 
     return dict(cases=cases, evalfn=evalfn, level="exploration", min_nontrivial=50,
                 rule="scenes of 2-5 TLS/QUIC connections to server ports drawn from {443, 44330, 8443, 4433, 9443, 1234, 50000, 1, 65535, 8080} x -p lists of 0..4 ports x -m "
-                     "absent / bare / 1..4 a:b pairs with and without trailing commas (mapped ports inside and outside the connection set); plus 'collide' scenes: one client "
+                     "absent / bare / 1..4 a:b pairs with and without trailing commas (mapped ports inside and outside the connection set); the same after an earlier run() of the same process with another -p list and mapping ('hist'); plus 'collide' scenes: one client "
                      "address and port connected to two watched ports of one server, both mapped to the same exported port. Class = (-p size, -m form, "
                      "per-connection (protocol, selected?, mapped?)); non-trivial = at least one connection was exported and every connection's presence, ports and data were checked",
                 assumptions=["a connection has exactly one side on a selected port (the statement is ambiguous otherwise; not generated)"])
@@ -69,9 +71,27 @@ def eval_case(case, rng):
     if rng.random() < 0.5:       # option order must not matter
         extra = extra[::-1] if not extra else extra
     items = scene.stamp(scene.merge(flows, rng, rng.choice(["random", "concat", "bursty"])), rng)
-    res, files, argv = e2e.run_capture(scene.capture(items), scene.keylog_text(flows, rng), extra)
+    extra0 = None
+    if case.get("hist"):
+        # earlier command of the same process: it selects ports this command does not select (preferably ports that connections of the capture use) and maps differently
+        unsel = sorted({f.ep.sport for f in flows if f.kind != "quic" and f.ep.sport not in selected})
+        p0 = sorted(set(rng.sample([p for p in PORTS if p not in (443, 44330)], rng.choice([0, 1, 2])) + rng.sample(unsel, min(len(unsel), rng.choice([1, 1, 2])))))
+        extra0 = (["-p"] + [str(p) for p in p0]) if p0 else []
+        m0 = rng.choice(["none", "bare", "pairs", "pairs"])
+        if m0 == "bare":
+            extra0 += ["-m"]
+        elif m0 == "pairs":
+            extra0 += ["-m"] + [f"{a}:{rng.choice([8080, 80, 9000, rng.choice(PORTS), tcpcap.map_target(rng)])}" for a in rng.sample(PORTS, rng.randrange(1, 5))]
+        from vlib import runner
+        files = {"in.pcapng": scene.capture(items), "keys.log": scene.keylog_text(flows, rng)}
+        base = ["-i", "{dir}/in.pcapng", "-s", "{dir}/keys.log"]
+        argv = base + ["-o", "{dir}/out.pcapng"] + extra
+        res = runner.run_tlexport(files, [base + ["-o", "{dir}/out_earlier.pcapng"] + extra0, argv])
+    else:
+        res, files, argv = e2e.run_capture(scene.capture(items), scene.keylog_text(flows, rng), extra)
     desc = []
-    out = {"tags": [f"m:{mform}", f"p:{len(plist)}"], "sample": {"case": case["id"], "connections": [f.label + " " + f.ep.describe() for f in flows], "args": extra}}
+    out = {"tags": [f"m:{mform}", f"p:{len(plist)}"] + (["history"] if extra0 is not None else []),
+           "sample": {"case": case["id"], "connections": [f.label + " " + f.ep.describe() for f in flows], "args": extra, "earlier_run_args": extra0}}
     fail = e2e.run_failed(res)
     if fail:
         return dict(out, cls=[mform, len(plist)], v="inconclusive" if fail.startswith("INCONCLUSIVE") else "violated", msg=f"args {extra}: " + fail, files=files)
@@ -104,11 +124,11 @@ def eval_case(case, rng):
         if (p.src, p.sport, p.dst, p.dport) not in expected_keys and p.payload:
             msgs.append(f"exported packet {p.sport}->{p.dport} ({'tcp' if p.proto == 6 else 'udp'}) belongs to no connection under the documented port rules")
             break
-    out["cls"] = [mform, len(plist), sorted(set(desc))]
+    out["cls"] = [mform, len(plist), sorted(set(desc))] + (["after-earlier-run"] if extra0 is not None else [])
     out["mon"] = {"connections_checked": len(flows)}
     out["nontrivial"] = exported > 0
     if msgs:
-        return dict(out, v="violated", msg=f"args {extra}: " + "; ".join(msgs[:3]), files=dict(files, argv="\n".join(argv), **{"out.pcapng": res.out}))
+        return dict(out, v="violated", msg=f"args {extra}" + (f" (after an earlier run() of the same process with {extra0})" if extra0 is not None else "") + ": " + "; ".join(msgs[:3]), files=dict(files, argv="\n".join(argv), **{"out.pcapng": res.out}))
     return dict(out, v="held")
 
 
